@@ -4,9 +4,9 @@
 package gen
 
 import (
-	"sort"
 	"math/big"
 	"math/rand"
+	"sort"
 
 	"olsim/core"
 )
@@ -15,6 +15,27 @@ import (
 type Tx struct {
 	Bytes []byte
 	Kind  string // e.g. "SEND", "SEND/overdraw"
+	Group string // transactions of one non-empty group keep their relative order when the block is shuffled
+}
+
+// KeepGroupOrder restores, after a shuffle, the original relative order of the members of every
+// group (they stay at the positions the shuffle gave to the group). orig is the pre-shuffle order.
+func KeepGroupOrder(orig, shuffled []Tx) {
+	pos := map[string][]int{}
+	for i, t := range shuffled {
+		if t.Group != "" {
+			pos[t.Group] = append(pos[t.Group], i)
+		}
+	}
+	next := map[string]int{}
+	for _, t := range orig {
+		if t.Group == "" {
+			continue
+		}
+		ps := pos[t.Group]
+		shuffled[ps[next[t.Group]]] = t
+		next[t.Group]++
+	}
 }
 
 // Ctx is what a generator sees.
@@ -29,10 +50,10 @@ type Ctx struct {
 
 // Session is generator-side memory that persists across blocks of one run.
 type Session struct {
-	M       map[string]interface{}
-	Sent    []Tx           // every tx emitted so far (for replayers, CheckTx noise)
+	M        map[string]interface{}
+	Sent     []Tx              // every tx emitted so far (for replayers, CheckTx noise)
 	EthNonce map[string]uint64 // next nonce the generator believes, per eth account label
-	Staked  map[string]bool
+	Staked   map[string]bool
 }
 
 func NewSession() *Session {
